@@ -18,7 +18,8 @@ RULE = (
     "sortable value family per argument, optional sub-grid on 0-2 other "
     "arguments, result kind number/bool/str/tuple/nested list/ndarray/dict/"
     "Dataset, shuffle on/off, flat/nested, split; plus the negative case of "
-    "an argument in both cases and combos.  Oracle: call log == exactly the "
+    "an argument in both cases and combos (through combo_runner, case_runner "
+    "in both spellings and combo_runner_to_ds).  Oracle: call log == exactly the "
     "requested settings once each; coordinates = sorted union per case "
     "argument then the grid values; requested cells hold the recorded result, "
     "every other cell satisfies the all-missing placeholder predicate (NaN, "
@@ -56,10 +57,25 @@ def run_case(case):
         # negative: an argument both in cases and in combos
         bad = dict(combos or {})
         bad[cargs[case["clash"] % len(cargs)]] = [1, 2]
+        via = case.get("clash_via", "combo_runner")
         try:
-            with under_test("combo_runner(clash)", expect=(ValueError,)):
-                x.combo_runner(fn, bad, cases=[dict(zip(cargs, c))
-                                              for c in cases], **opts)
+            with under_test(f"{via}(clash)", expect=(ValueError,)):
+                if via == "combo_runner":
+                    x.combo_runner(fn, bad, cases=[dict(zip(cargs, c))
+                                                  for c in cases], **opts)
+                elif via == "case_runner_dict":
+                    x.case_runner(fn, None, [dict(zip(cargs, c))
+                                             for c in cases], combos=bad,
+                                  **opts)
+                elif via == "case_runner_tuple":
+                    x.case_runner(fn, tuple(cargs), [tuple(c) for c in cases],
+                                  combos=bad, **opts)
+                else:
+                    x.combo_runner_to_ds(fn, bad, "out",
+                                         cases=[dict(zip(cargs, c))
+                                                for c in cases],
+                                         constants=dict(consts) or None,
+                                         verbosity=0)
         except ValueError:
             require(not models.LOG, "clash-rejected-after-calls",
                     f"{len(models.LOG)} calls before rejection")
@@ -193,7 +209,8 @@ def strategy(draw):
         consts.pop(nm, None)
     kind = draw(st.sampled_from(
         ["tuple2", "float", "bool", "str", "int", "tuple3", "tuple_arr",
-         "nested", "ndarray", "dict", "dataset", "tuple_2d", "ndarray2d"]))
+         "nested", "ndarray", "dict", "dataset", "tuple_2d", "ndarray2d",
+         "tuple_intarr", "intarr2d", "tuple_strarr"]))
     spelling = draw(st.sampled_from(["dict", "dict", "tuple"]))
     split = draw(st.booleans()) if kind.startswith("tuple") else False
     case = {"args": cs["args"], "cases": cs["cases"], "subgrid": sub,
@@ -205,6 +222,9 @@ def strategy(draw):
             "rot": draw(st.integers(0, 3))}
     if draw(st.sampled_from([False] * 19 + [True])):
         case["clash"] = draw(st.integers(1, 4))
+        case["clash_via"] = draw(st.sampled_from(
+            ["combo_runner", "case_runner_dict", "case_runner_tuple",
+             "combo_runner_to_ds"]))
         case["spelling"] = "dict"
     return case
 
